@@ -6,13 +6,13 @@ Open Scope Z_scope.
 (* The iteration order of Go's map is not observable for hosts that issue no
    host-specific call; the harness lists the candidate orders consistent with
    what was observed and the model must replay under one of them. *)
-Definition off_case := (config * off_env * list (list host) * list tentry)%type.
+Definition off_case := (config * off_env * list (list host) * list tentry * Z)%type.
 Definition with_order (env : off_env) (o : list host) : off_env :=
   {| oe_master := oe_master env; oe_state := oe_state env; oe_order := o; oe_zone := oe_zone env |}.
 Definition ok_off (c : off_case) : bool :=
-  let '(cfg, env, orders, tr) := c in
+  let '(cfg, env, orders, tr, t0) := c in
   existsb (fun o =>
-    match replay (repair_offline_mode cfg (with_order env o)) (init_rstate tr 0 []) with
+    match replay (repair_offline_mode cfg (with_order env o)) (init_rstate tr t0 []) with
     | RDone _ rs => match r_rest rs with [] => true | _ => false end
     | _ => false
     end) orders.
